@@ -436,7 +436,7 @@ func TestVerif_C05_Cuts(t *testing.T) {
 				// wire length is needed to enumerate the cuts: measure with a dry run
 				total := c05WireLen(t, kind, ex)
 				if total <= 0 {
-					fail(c05Case{Kind: kind, Writers: [][]int{ex}}, fmt.Errorf("harness: cannot measure wire length"))
+					fail(c05Case{Kind: kind, Writers: [][]int{ex}}, vk.Violatef("writing the messages %v put no bytes on the wire: a message (even an empty one) must travel as one record", ex))
 					return
 				}
 				for a := 1; a < total && !stop; a++ {
